@@ -69,7 +69,7 @@ var c16Local = map[int]string{
 	nChoice: "Choice", nTxbxContent: "txbxContent", nSmartTag: "smartTag", nFldSimple: "fldSimple",
 	nSpan: "span", nA: "a", nS: "s", nLineBreak: "line-break", nNote: "note", nAnnotation: "annotation",
 	nAnnotationEnd: "annotation-end",
-	60: "bookmarkStart", 61: "proofErr", 62: "b", 63: "jc", 64: "note-citation", 65: "note-body",
+	60:             "bookmarkStart", 61: "proofErr", 62: "b", 63: "jc", 64: "note-citation", 65: "note-body",
 	66: "bookmark", 67: "soft-page-break", 68: "creator", 69: "tcPr", 70: "tblPr", 71: "alias",
 }
 
@@ -873,6 +873,42 @@ func init() {
 				text, _, e1 := tabula.Open(path).Text()
 				md, _, e2 := tabula.Open(path).ToMarkdown()
 				r.Check(e1 == nil && e2 == nil, "doc-text-error:"+name, fmt.Sprintf("Text/ToMarkdown failed: %v %v", e1, e2), cv)
+				// the same three views from ONE open reader, the document model last: rendering text must not change it
+				{
+					var doc2 *model.Document
+					var t2, m2 string
+					var e3 error
+					if f == 0 {
+						if rd, err := docx.Open(path); err == nil {
+							t2, _ = rd.Text()
+							m2, _ = rd.Markdown()
+							t2b, _ := rd.Text()
+							doc2, e3 = rd.Document()
+							if t2b != t2 {
+								e3 = fmt.Errorf("Text() differs the second time")
+							}
+							rd.Close()
+						} else {
+							e3 = err
+						}
+					} else {
+						if rd, err := odt.Open(path); err == nil {
+							t2, _ = rd.Text()
+							m2, _ = rd.Markdown()
+							t2b, _ := rd.Text()
+							doc2, e3 = rd.Document()
+							if t2b != t2 {
+								e3 = fmt.Errorf("Text() differs the second time")
+							}
+							rd.Close()
+						} else {
+							e3 = err
+						}
+					}
+					same := e3 == nil && doc2 != nil && Str(c16Elements(doc2)) == Str(c16Elements(doc)) && t2 == text
+					_ = m2
+					r.Check(same, "one-reader:"+name, fmt.Sprintf("Text, Markdown, Text, Document on one open %s reader: the document model or the text differs from a fresh reader's (%v)", name, e3), cv)
+				}
 				// body order: every authored anchor once, in order, in all three views
 				anchors = anchors[:0]
 				for _, e := range exps {
